@@ -21,6 +21,73 @@ EXPLANATION = (
 )
 
 
+def iterate_defensive_copy(prog: Program, rep, ow=None) -> None:
+    """an Iterate owns its point: x and y are copies made by the constructor (shared by C12 / C13: the recorded and the evaluated point)"""
+    from ..symex import facts_for
+    if ow is None:
+        ow = Ownership(prog)
+    # defensive copies that the property's anchors name
+    itn = prog.func("pygradflow.iterate.Iterate.__init__")
+    fi_ = facts_for(itn)
+    for attr in ("x", "y"):
+        st = [s for s in fi_.order if isinstance(s.stmt, ast.Assign) and any(U(t) == f"self.{attr}" for t in s.stmt.targets)]
+        ok = bool(st) and not Ownership.protected(ow.val(itn, fi_, fi_.resolved(st[0].stmt, st[0].stmt.value)))
+        hp = Ownership.protected(ow.H.get(("pygradflow.iterate.Iterate", attr), set()))
+        # Iterate is constructed by users as well (it is what callbacks and helpers hand around): on every path the stored array
+        # is a copy made here, never the constructor's own argument - whatever flags that argument carries (a read-only VIEW of a
+        # buffer the caller keeps writing to is still the caller's storage)
+        bare = []
+        for s_ in st:
+            from ..symex import phi_alternatives as _alts
+            for a in _alts(fi_.resolved(s_.stmt, s_.stmt.value)):
+                while isinstance(a, ast.Call) and (dotted(a.func) or "").split(".")[-1] in ("_read_only", "asarray", "asanyarray", "ascontiguousarray", "atleast_1d") and a.args:
+                    a = a.args[0]     # these hand back their argument (or may)
+                if isinstance(a, ast.Name) and a.id in itn.params:
+                    bare.append((s_, a.id))
+        rep.check(ok and not hp and not bare, "defensive-copy", itn.qualname, short(st[0].stmt) if st else attr,
+                  f"Iterate.{attr} never aliases caller-owned storage (copied on construction)" + (f"; on some path the argument `{bare[0][1]}` itself is stored" if bare else ""), itn.loc())
+
+
+def problem_bounds_copied(prog: Program, rep) -> None:
+    """Problem.var_lb / var_ub are copies made by the constructor: the box the solver clips to and evaluates in is the box that was
+    declared, whatever the caller does with the arrays afterwards (np.asarray / astype(copy=False) hand the caller's array back)."""
+    from ..symex import facts_for, phi_alternatives as _alts
+    init = prog.func("pygradflow.problem.Problem.__init__")
+    ff = facts_for(init)
+    n = 0
+    for attr in ("var_lb", "var_ub"):
+        sts = [s for s in ff.order if isinstance(s.stmt, (ast.Assign, ast.AnnAssign)) and getattr(s.stmt, "value", None) is not None
+               and any(U(t) == f"self.{attr}" for t in (s.stmt.targets if isinstance(s.stmt, ast.Assign) else [s.stmt.target]))]
+        if not sts:
+            raise AnalysisError(f"Problem.__init__ does not store self.{attr}")
+        for s_ in sts:
+            for a in _alts(ff.resolved(s_.stmt, s_.stmt.value)):
+                n += 1
+                e = a
+                copied = False
+                # walk through the calls that may hand back their argument until a copying call or the bare argument is reached
+                while isinstance(e, ast.Call):
+                    d = (dotted(e.func) or "")
+                    last = d.split(".")[-1]
+                    if last in ("copy", "array") and not any(kw.arg == "copy" and isinstance(kw.value, ast.Constant) and kw.value.value is False for kw in e.keywords):
+                        copied = True
+                        break
+                    if last == "astype" and isinstance(e.func, ast.Attribute):
+                        if not any(kw.arg == "copy" and isinstance(kw.value, ast.Constant) and kw.value.value is False for kw in e.keywords):
+                            copied = True
+                            break
+                        e = e.func.value
+                        continue
+                    if last in ("asarray", "asanyarray", "ascontiguousarray", "atleast_1d", "asfarray", "_read_only", "require") and e.args:
+                        e = e.args[0]
+                        continue
+                    break
+                aliases = not copied and isinstance(e, ast.Name) and e.id in init.params
+                rep.check(not aliases, "bounds-are-private-copies", init.qualname, short(s_.stmt),
+                          f"Problem.{attr} is a copy made at construction" + (f" (the argument `{e.id}` itself may be stored: `{U(a)[:60]}`)" if aliases else ""), init.loc(s_.stmt))
+    rep.pin("stores of the variable bounds in Problem.__init__", n, 2)
+
+
 def run(prog: Program, rep, tier: str) -> None:
     rep.explanation = EXPLANATION
     rep.assumptions += ["scipy/numpy do not modify their inputs beyond what the transfer table states",
@@ -62,13 +129,7 @@ def run(prog: Program, rep, tier: str) -> None:
                 seen_user = True
     if not seen_user:
         raise AnalysisError("ownership analysis no longer sees the wrapped problem's cons() result as caller-owned (source table out of date)")
-    # defensive copies that the property's anchors name
+    iterate_defensive_copy(prog, rep, ow)
+    problem_bounds_copied(prog, rep)
     itn = prog.func("pygradflow.iterate.Iterate.__init__")
-    fi_ = facts_for(itn)
-    for attr in ("x", "y"):
-        st = [s for s in fi_.order if isinstance(s.stmt, ast.Assign) and any(U(t) == f"self.{attr}" for t in s.stmt.targets)]
-        ok = bool(st) and not Ownership.protected(ow.val(itn, fi_, fi_.resolved(st[0].stmt, st[0].stmt.value)))
-        hp = Ownership.protected(ow.H.get(("pygradflow.iterate.Iterate", attr), set()))
-        rep.check(ok and not hp, "defensive-copy", itn.qualname, short(st[0].stmt) if st else attr,
-                  f"Iterate.{attr} never aliases caller-owned storage (copied on construction)", itn.loc())
     rep.extra["tokens_reaching_Iterate_init_x"] = sorted(ow.param_tokens(itn, "x"))
